@@ -183,6 +183,8 @@ class MindsDBParser(Parser):
     @_('CREATE CHATBOT identifier USING kw_parameter_list')
     def create_chat_bot(self, p):
         params = p.kw_parameter_list
+        if 'database' not in params:
+            raise ParsingException("CREATE CHATBOT: 'database' parameter is required")
 
         database = Identifier(params.pop('database'))
         model_param = params.pop('model', None)
